@@ -17,7 +17,8 @@ try:
     rc, out = sh(os.path.join(V, "bin/baseline.sh"))
     res["baseline"] = out.strip().splitlines()[-1] if out.strip() else "?"
     for p in props:
-        rc, out = sh("%s %s --tier quick" % (os.path.join(V, "bin/check"), p), cwd=V)
+        rc, out = sh("%s %s --tier quick" % (os.path.join(V, "bin/check"), p), cwd=V,
+                     env=dict(os.environ, VERIF_EVIDENCE_DIR=os.path.join(V, "build", "evidence_seeded")))
         lines = [l for l in out.splitlines() if l.startswith(("VIOLATION", "OK", "KNOWN", "  "))]
         res[p] = {"exit": rc, "lines": lines[:6]}
 finally:
